@@ -127,6 +127,13 @@ fn cycle_step_base0() {
     step(0);
 }
 
+/// same with plane indices 14..19 (beyond any 16-entry fixed-size buffer)
+#[kani::proof]
+#[kani::unwind(22)]
+fn cycle_step_base14() {
+    step(14);
+}
+
 /// same with plane indices 62..67 (cells with more than 64 clipping planes occur for clustered inputs)
 #[kani::proof]
 #[kani::unwind(70)]
